@@ -2,7 +2,7 @@
    can be validated against the compiled C functions on concrete inputs. *)
 From Coq Require Import ZArith List Bool String.
 Require Import Spec.Params Spec.Bytes Model.Base Gen.fe_mul_inner Gen.fe_sqr_inner.
-Require Import Gen.scalar_is_zero Gen.scalar_cmov Gen.fe_impl_cmov Gen.fe_storage_cmov Gen.int_cmov Gen.scalar_check_overflow Gen.scalar_is_high Gen.scalar_cond_negate Gen.scalar_negate Gen.fe_impl_normalize Gen.fe_impl_normalize_weak Gen.fe_impl_normalizes_to_zero Gen.fe_impl_negate_unchecked Gen.fe_impl_add Gen.fe_impl_half Gen.fe_impl_is_odd Gen.scalar_mul_512 Gen.scalar_sqr_512 Gen.scalar_reduce_512 Gen.scalar8x32_mul_512 Gen.scalar8x32_sqr_512 Gen.scalar8x32_check_overflow Gen.scalar8x32_reduce_512 Gen.scalar8x32_mul Gen.scalar8x32_sqr.
+Require Import Gen.scalar_is_zero Gen.scalar_cmov Gen.fe_impl_cmov Gen.fe_storage_cmov Gen.int_cmov Gen.scalar_check_overflow Gen.scalar_is_high Gen.scalar_cond_negate Gen.scalar_negate Gen.fe_impl_normalize Gen.fe_impl_normalize_weak Gen.fe_impl_normalizes_to_zero Gen.fe_impl_negate_unchecked Gen.fe_impl_add Gen.fe_impl_half Gen.fe_impl_is_odd Gen.scalar_mul_512 Gen.scalar_sqr_512 Gen.scalar_reduce_512 Gen.scalar8x32_mul_512 Gen.scalar8x32_sqr_512 Gen.scalar8x32_check_overflow Gen.scalar8x32_reduce_512 Gen.scalar8x32_mul Gen.scalar8x32_sqr Gen.scalar_mul_512b Gen.scalar_sqr_512b Gen.scalar_mul Gen.scalar_sqr.
 Import ListNotations.
 Local Open Scope Z_scope.
 Definition dispatch_gen (P : Params) (op : string) (a : list arg) : list arg :=
@@ -36,4 +36,8 @@ Definition dispatch_gen (P : Params) (op : string) (a : list arg) : list arg :=
   else if (op =? "raw8x32_check_overflow")%string then [AInt (scalar8x32_check_overflow (I 0%nat) (I 1%nat) (I 2%nat) (I 3%nat) (I 4%nat) (I 5%nat) (I 6%nat) (I 7%nat))]
   else if (op =? "raw8x32_mul")%string then map AInt (scalar8x32_mul (I 0%nat) (I 1%nat) (I 2%nat) (I 3%nat) (I 4%nat) (I 5%nat) (I 6%nat) (I 7%nat) (I 8%nat) (I 9%nat) (I 10%nat) (I 11%nat) (I 12%nat) (I 13%nat) (I 14%nat) (I 15%nat))
   else if (op =? "raw8x32_sqr")%string then map AInt (scalar8x32_sqr (I 0%nat) (I 1%nat) (I 2%nat) (I 3%nat) (I 4%nat) (I 5%nat) (I 6%nat) (I 7%nat))
+  else if (op =? "raw_scalar_mul_512b")%string then map AInt (scalar_mul_512b (I 0%nat) (I 1%nat) (I 2%nat) (I 3%nat) (I 4%nat) (I 5%nat) (I 6%nat) (I 7%nat))
+  else if (op =? "raw_scalar_sqr_512b")%string then map AInt (scalar_sqr_512b (I 0%nat) (I 1%nat) (I 2%nat) (I 3%nat))
+  else if (op =? "raw_scalar_mul")%string then map AInt (scalar_mul (I 0%nat) (I 1%nat) (I 2%nat) (I 3%nat) (I 4%nat) (I 5%nat) (I 6%nat) (I 7%nat))
+  else if (op =? "raw_scalar_sqr")%string then map AInt (scalar_sqr (I 0%nat) (I 1%nat) (I 2%nat) (I 3%nat))
   else bad_case.
